@@ -26,7 +26,7 @@ import (
 func init() {
 	Registry["C14"] = &Check{
 		Scenarios: c14Scenarios,
-		Rule: "events: CloseNotify requested {inside the first handler, by a free application thread at every possible instant (in particular while the reader is parked in Read), twice (handler + thread), after termination}; two messages delivered in three fragments (one fragment boundary inside the first header); a Read after the local end was closed reports io.ErrClosedPipe / net.ErrClosed / the harness's own error depending on the request mode; termination by {peer EOF, transport read error, a read error that reports itself as temporary (once), EOF / read error returned by the same Read that delivers the last message (n > 0 with err != nil), undecodable header followed by trailing bytes, local Close from a free thread at every instant, a handler panic on the second message (recovered by the serve loop)}; an observer thread records the instant the channel closes. The requesting / closing / observing threads and the peer are environment threads, so every ordering of their steps against the library's steps is explored even at preemption bound 0; library preemption bound 2 (quick) / unbounded (thorough). The same request modes {handler, thread, after} x terminations {EOF, undecodable input, local Close, EOF inside a header, EOF / reset inside a body} on a multistream (in-memory SCTP) connection, where CloseNotify installs a read-error handler. Also a handler (of a message read through the switched reader) that waits on the channel while the peer ends the connection {EOF, reset}: the notifier is then the only goroutine able to observe the end. Also a local Close while the handler of a later message is busy and the notifier holds the bytes of a further message; the busy handler then panics or returns. Also CloseNotify active on two connections at once, one notifier holding a message while the other passes one on. Also a handler that ends its goroutine with runtime.Goexit (the reader unwinds without a read error and without a panic value), CloseNotify requested {in the first handler, by the application before anything arrives}. Also a local Close while an application goroutine's Write is stuck inside the transport (the peer has stopped reading). Also a connection accepted by a Server with ReadTimeout 2 s that idles into its read deadline (virtual clock), CloseNotify requested {in the handler, by a thread, not at all}. Also sm.Client with the watchdog enabled followed by a quiet peer close, preceded by 0, 1, 2 or 3 unsolicited success DWAs (in one segment or one segment each) (virtual time, horizon 12 s).",
+		Rule: "events: CloseNotify requested {inside the first handler, by a free application thread at every possible instant (in particular while the reader is parked in Read), twice (handler + thread), after termination}; two messages delivered in three fragments (one fragment boundary inside the first header); a Read after the local end was closed reports io.ErrClosedPipe / net.ErrClosed / the harness's own error depending on the request mode; termination by {peer EOF, transport read error, a read error that reports itself as temporary (once), EOF / read error returned by the same Read that delivers the last message (n > 0 with err != nil), undecodable header followed by trailing bytes, local Close from a free thread at every instant, a handler panic on the second message (recovered by the serve loop)}; an observer thread records the instant the channel closes. The requesting / closing / observing threads and the peer are environment threads, so every ordering of their steps against the library's steps is explored even at preemption bound 0; library preemption bound 2 (quick) / unbounded (thorough). The same request modes {handler, thread, after} x terminations {EOF, undecodable input, local Close, EOF inside a header, EOF / reset inside a body} on a multistream (in-memory SCTP) connection, where CloseNotify installs a read-error handler. Also a handler (of a message read through the switched reader) that waits on the channel while the peer ends the connection {EOF, reset}: the notifier is then the only goroutine able to observe the end. Also a local Close while the handler of a later message is busy and the notifier holds the bytes of a further message; the busy handler then panics or returns. Also CloseNotify active on two connections at once, one notifier holding a message while the other passes one on. Also a handler that ends its goroutine with runtime.Goexit (the reader unwinds without a read error and without a panic value), CloseNotify requested {in the first handler, by the application before anything arrives}. Also a local Close while an application goroutine's Write is stuck inside the transport (the peer has stopped reading). Also a Server with ReadTimeout 3 s whose second message arrives split (0, 1, 7, 20, 30 octets with the first message, the rest 2 s later): both are delivered and the connection ends after a real idle period. Also a connection accepted by a Server with ReadTimeout 2 s that idles into its read deadline (virtual clock), CloseNotify requested {in the handler, by a thread, not at all}. Also sm.Client with the watchdog enabled followed by a quiet peer close, preceded by 0, 1, 2 or 3 unsolicited success DWAs (in one segment or one segment each) (virtual time, horizon 12 s).",
 		Assume: []string{"data-race freedom between visible operations (audited separately with -race)", "io.Pipe is modelled by vsched.Pipe (Write blocks until the data is consumed or either end is closed)"},
 		QuickBudget: 100, ThoroughBudget: 1500,
 	}
@@ -91,6 +91,9 @@ func c14Scenarios(tier string) []*Scenario {
 		out = append(out, c14HandlerLeaves(req, bound))
 	}
 	out = append(out, c14TwoConnections(bound))
+	for _, cut := range []int{0, 1, 7, 20, 30} {
+		out = append(out, c14ReadTimeoutFragmented(cut, bound))
+	}
 	out = append(out, c14Watchdog(bound), c14WatchdogStray(1, false, bound), c14WatchdogStray(2, true, bound), c14WatchdogStray(2, false, bound), c14WatchdogStray(3, true, bound))
 	// client handshakes that end exactly at the deadline: whatever the outcome, once the transport
 	// is closed every goroutine the library started must have exited
@@ -834,6 +837,59 @@ var c14ValBound = func() int {
 // connection terminates - a read error like any other. CloseNotify (requested by the first
 // handler, by a free application thread, or not at all) fires then and only then; both messages
 // were handled; every goroutine of the connection exits.
+// c14ReadTimeoutFragmented: a Server with ReadTimeout 3 s. The first message arrives at 2 s in one
+// segment with the first 7 octets of the second; the rest of the second arrives at 4 s - two
+// seconds after the previous message, inside the timeout. Both are delivered; the connection ends
+// when it has really been idle for the timeout (7 s), not before.
+func c14ReadTimeoutFragmented(cut int, bound int) *Scenario {
+	m1, m2 := c14msg(1), c14msg(2)
+	const rt = 3 * time.Second
+	body := func() {
+		st := &c14State{}
+		c14st = st
+		conn := vnet.NewConn("A")
+		conn.Pieces = 1
+		st.conn = conn
+		lis := vnet.NewListener()
+		mux := diam.NewServeMux()
+		mux.HandleFunc("ALL", func(c diam.Conn, m *diam.Message) {
+			st.handled = append(st.handled, m.Header.HopByHopID)
+		})
+		srv := &diam.Server{Handler: mux, Dict: dict.Default, ReadTimeout: rt}
+		lis.Offer(vnet.AcceptItem{Conn: conn})
+		vs.GoNamed("serve", false, func() { srv.Serve(lis) })
+		vs.GoNamed("peer", true, func() {
+			vs.TimeSleep(2 * time.Second)
+			conn.Deliver(append(append([]byte{}, m1...), m2[:cut]...))
+			vs.TimeSleep(2 * time.Second)
+			conn.Deliver(m2[cut:])
+			vs.BlockObj("wait-closed", conn, func() bool { return conn.Closed })
+			lis.Close()
+		})
+	}
+	check := func(s *vs.Sched) string {
+		st := c14st
+		var v []string
+		if p := s.Panics(); len(p) > 0 {
+			v = append(v, "panic: "+strings.Join(p, "; "))
+		}
+		if fmt.Sprint(st.handled) != "[1 2]" {
+			v = append(v, fmt.Sprintf("handlers saw messages %v, the peer delivered [1 2] (the second one in two segments, 2 s apart, under a ReadTimeout of 3 s)", st.handled))
+		}
+		if !st.conn.Closed {
+			v = append(v, "the idle connection was never closed")
+		} else if st.conn.ClosedAt != 4*time.Second+rt {
+			v = append(v, fmt.Sprintf("the connection was closed at %v; its last message was complete at 4s and ReadTimeout is %v", st.conn.ClosedAt, rt))
+		}
+		if b := s.BlockedLib(); len(b) > 0 {
+			v = append(v, "library goroutines still alive after the connection ended: "+strings.Join(b, ", "))
+		}
+		return strings.Join(v, " | ")
+	}
+	return &Scenario{Name: fmt.Sprintf("read-timeout/second-message-split-%d-octets-in", cut), Body: body, Check: check, Bound: bound, Horizon: 12 * time.Second,
+		Outcome: func(s *vs.Sched) string { return fmt.Sprint(c14st.handled, c14st.conn.ClosedAt) }}
+}
+
 func c14ReadTimeout(req string, bound int) *Scenario {
 	m1, m2 := c14msg(1), c14msg(2)
 	const rt = 2 * time.Second
